@@ -325,14 +325,19 @@ func (s *Server) doUpdateOrReplace(ctx context.Context, prefix *gnmi.Path, u *gn
 
 	jsonVal := u.GetVal().GetJsonVal()
 	if jsonVal != nil {
-		log.Debugf("Processing Json Value in set from base %s: %s", path, string(jsonVal))
-		pathValues, err := target.plugin.GetPathValues(ctx, prefixPath, jsonVal)
+		// The JSON document is relative to the prefix followed by the update's own path
+		basePath := prefixPath
+		if utils.StrPath(u.Path) != "/" {
+			basePath = path
+		}
+		log.Debugf("Processing Json Value in set from base %s: %s", basePath, string(jsonVal))
+		pathValues, err := target.plugin.GetPathValues(ctx, basePath, jsonVal)
 		if err != nil {
 			return err
 		}
 
 		if len(pathValues) == 0 {
-			log.Warnf("no pathValues found for %s in %v", path, string(jsonVal))
+			log.Warnf("no pathValues found for %s in %v", basePath, string(jsonVal))
 		}
 
 		for _, cv := range pathValues {
